@@ -37,6 +37,13 @@ class Stub:
     """Base class for caller-supplied objects the interpreted code may touch through attributes, subscripts and calls."""
 
 
+class StubCall(Stub):
+    """A plain function handed out by a stub (e.g. a staticmethod of the numpy stand-in)."""
+
+    def __init__(self, f):
+        self.f = f
+
+
 BUILTINS: Dict[str, Any] = {
     "len": len, "range": range, "sorted": sorted, "list": list, "set": set, "tuple": tuple, "dict": dict, "max": max, "min": min,
     "sum": sum, "enumerate": enumerate, "zip": zip, "str": str, "int": int, "float": float, "abs": abs, "any": any, "all": all,
@@ -298,7 +305,10 @@ class Interp:
                 return getattr(base, e.attr)
             if isinstance(base, Stub):
                 try:
-                    return getattr(base, e.attr)
+                    v = getattr(base, e.attr)
+                    if callable(v) and not isinstance(v, (Stub, Function)) and getattr(v, "__self__", None) is None:
+                        return StubCall(v)
+                    return v
                 except AttributeError:
                     raise Unsupported(f"stub {type(base).__name__} has no attribute {e.attr}")
             raise Unsupported(f"attribute {e.attr} of {type(base).__name__}")
@@ -326,6 +336,8 @@ class Interp:
                 return fn(*args, **kwargs)
             if isinstance(fn, type) and issubclass(fn, Stub):
                 return fn(*args, **kwargs)
+            if isinstance(fn, StubCall):
+                return fn.f(*args, **kwargs)
             raise Unsupported("call of " + unparse(e.func))
         if isinstance(e, ast.Starred):
             raise Unsupported("starred")
